@@ -416,6 +416,46 @@ def gen_alg(tier, rng):
         f = base_filter(rng, S, list(range(nb1 + 1)), list(range(na1 + 1)), bits[:n1])
         g = base_filter(rng, S, list(range(nb2 + 1)), list(range(na2 + 1)), bits[n1:])
         yield mk_case([op, f, g], S, rng, ["pair", op])
+  # (1b) coincidences: operands sharing equal CONSTANT sub-polynomials (numerator of one = denominator of the
+  # other, equal denominators with Stream numerators, equal numerators, the trivial common factor 1), Streams elsewhere
+  POLYS = [[Fraction(1), Fraction(-1, 2)], [Fraction(2), Fraction(1)], [Fraction(1), Fraction(0), Fraction(-1)],
+           [Fraction(1)], [Fraction(-1, 2), Fraction(3, 2), Fraction(1)], [Fraction(3, 2)]]
+
+  def cpoly(P):
+    return [[k, cst(v)] for k, v in enumerate(P) if v != 0]
+
+  def spoly(S, n, first_const=None, pstream=0.8):
+    items = []
+    for k in range(n):
+      if k == 0 and first_const is not None:
+        items.append([0, cst(first_const)])
+      elif rng.random() < pstream:
+        items.append([k, S.new()])
+      else:
+        items.append([k, cst(rng.choice(CONSTS))])
+    return items
+
+  reps = 3 if tier == "quick" else 25
+  for P in POLYS:
+    for shape in ("num=den", "den=num", "den=den", "num=num", "num=den-const-rest"):
+      for op in ("mul", "add", "sub"):
+        for _ in range(reps if op == "mul" or shape == "den=den" else 1):
+          S = Srcs(rng, rng.randrange(3, 6), short=0.15)
+          other = lambda: spoly(S, rng.randrange(1, 3))
+          gain1 = lambda: spoly(S, rng.randrange(1, 3), first_const=rng.choice([Fraction(1), Fraction(2), Fraction(-1)]),
+                                pstream=0.7)
+          if shape == "num=den":
+            f, g = ["base", cpoly(P), gain1()], ["base", other(), cpoly(P)]
+          elif shape == "den=num":
+            f, g = ["base", other(), cpoly(P)], ["base", cpoly(P), gain1()]
+          elif shape == "den=den":
+            f, g = ["base", other(), cpoly(P)], ["base", other(), cpoly(P)]
+          elif shape == "num=num":
+            f, g = ["base", cpoly(P), gain1()], ["base", cpoly(P), gain1()]
+          else:
+            f = ["base", cpoly(P), [[0, cst(1)], [1, cst(Fraction(1, 2))]]]
+            g = ["base", other(), cpoly(P)]
+          yield mk_case([op, f, g], S, rng, ["coincide", shape, op])
   # (2) Stream * z**-k sums: the way the documentation builds time-varying filters
   n = 60 if tier == "quick" else 600
   for _ in range(n):
@@ -469,6 +509,155 @@ trusted_base = [
 ASSUMPTIONS = ["CPython semantics of exec / generators / itertools.tee / map as documented",
                "str.format of ExactQ ('_Q(n,d)', injected in builtins by vlib.exactq)"]
 
+# ----------------------------------------------------------------------------- sessions on one filter object
+def run_ses(c):
+  """steps on ONE filter object: ["call", fuel] | ["shift", k, fuel] (g = filt * z**-k; call g) | ["look"];
+  every call reads the same input generator (source 0) and the same coefficient Streams"""
+  import audiolazy
+  import audiolazy.lazy_filters as lf
+  log = []
+  made = {}
+
+  def stream(i):
+    assert i not in made and i != 0
+    made[i] = True
+    return audiolazy.Stream(_source(i, c["srcs"][i], log))
+
+  try:
+    flt = _build(c["expr"], {"stream": stream})
+  except Exception as e:
+    return {"stage": "build", "exc": type(e).__name__}
+  seq = _source(0, c["srcs"][0], log)
+  zero = ExactQ(unfr(c["zero"]))
+  captured = []
+  orig = lf._exec_eval
+
+  def recorder(data, expr):
+    captured.append([data, expr])
+    return orig(data, expr)
+
+  obs = []
+  lf._exec_eval = recorder
+  try:
+    for st in c["steps"]:
+      if st[0] == "look":
+        obs.append({"seen": [[[int(k), isinstance(v, audiolazy.Stream)] for k, v in poly._data.items()]
+                             for poly in (flt.numpoly, flt.denpoly)]})
+        continue
+      del captured[:]
+      start = len(log)
+      fuel = st[-1]
+      try:
+        target = flt if st[0] == "call" else flt * audiolazy.z ** -st[1]
+        out = target(seq, zero=zero)
+      except Exception as e:
+        obs.append({"err": type(e).__name__})
+        continue
+      n = 0
+      try:
+        it = iter(out)
+        while n < fuel:
+          try:
+            v = next(it)
+          except StopIteration:
+            log.append(["S"])
+            break
+          log.append(["Y", fr(to_frac(v))])
+          n += 1
+      except Exception as e:
+        log.append(["E", type(e).__name__])
+      if len(captured) == 1 and captured[0][1] == "gen":
+        prog = parse_program(captured[0][0])
+      else:
+        prog = {"error": "%d programs" % len(captured)}
+      obs.append({"prog": prog, "trace": log[start:]})
+  finally:
+    lf._exec_eval = orig
+  return {"stage": "steps", "obs": obs}
+
+
+def lit_ses(c, o):
+  steps = []
+  for st in c["steps"]:
+    if st[0] == "call":
+      steps.append("SCall %s" % L.nat(st[1]))
+    elif st[0] == "shift":
+      steps.append("SShiftCall %s %s" % (L.nat(st[1]), L.nat(st[2])))
+    else:
+      steps.append("SLook")
+  obs = []
+  for x in (o.get("obs") or []):
+    if "err" in x:
+      obs.append("SOErr %s" % L.string(x["err"]))
+    elif "seen" in x:
+      shp = lambda l: L.lst(["(%s, %s)" % (L.z(k), L.boolean(b)) for k, b in l])
+      obs.append("SOSeen %s %s" % (shp(x["seen"][0]), shp(x["seen"][1])))
+    else:
+      obs.append("SORun %s %s" % (prog_lit(x["prog"]), L.lst([event_lit(e) for e in x["trace"]])))
+  if o.get("stage") != "steps":
+    obs = ["SOOther"]
+  return "(SCase %s %s %s %s %s)" % (expr_lit(c["expr"]), L.lst([src_lit(x) for x in c["srcs"]]), q(c["zero"]),
+                                     L.lst(steps), L.lst(obs))
+
+
+def long_srcs(rng, nin=14):
+  """sources long enough for several calls: the input has nin items, coefficient sources are longer or periodic"""
+  S = Srcs(rng, nin, short=0.0)
+  return S
+
+
+def noncausal_base(rng, S, a0_stream):
+  nk = sorted(set([-rng.randrange(1, 3)] + [k for k in range(0, 2) if rng.random() < 0.6]))
+  dk = [0] + [k for k in range(1, 3) if rng.random() < 0.6]
+  bits = [rng.random() < 0.6 for _ in nk] + [a0_stream] + [rng.random() < 0.6 for _ in dk[1:]]
+  return base_filter(rng, S, nk, dk, bits), -min(nk)
+
+
+def gen_ses(tier, rng):
+  reps = 1 if tier == "quick" else 8
+  # (g) a REFUSED call (non-causal) must leave the object as it was: look, call (refused), look, then the same
+  # object made causal by * z**-k and run; with a Stream gain and with a number as gain
+  for _ in range(30 * reps):
+    S = long_srcs(rng, rng.randrange(4, 8))
+    a0s = rng.random() < 0.7
+    e, need = noncausal_base(rng, S, a0s)
+    k = need + rng.randrange(0, 2)
+    steps = [["look"], ["call", 3], ["look"]]
+    if rng.random() < 0.3:
+      steps += [["call", 2], ["look"]]
+    steps += [["shift", k, rng.randrange(2, 6)]]
+    yield {"expr": e, "srcs": S.list, "zero": fr(0), "steps": steps,
+           "tags": ["refused-then-used", "a0str" if a0s else "a0const"]}
+  # (a)/(d) block by block: two or three calls of one filter (a number as gain) go on reading the same
+  # coefficient Streams; the object keeps its shape
+  for _ in range(30 * reps):
+    S = long_srcs(rng, 14)
+    def number_gain(t):
+      if t[2] and t[2][0][0] == 0 and t[2][0][1][0] == "s":
+        t[2][0][1] = cst(rng.choice(CONSTS))          # a0: a number
+      return t
+    e = number_gain(small_filter(rng, S, maxorder=2, pstream=0.7))
+    if rng.random() < 0.4:
+      e = [rng.choice(["mul", "add"]), e, number_gain(small_filter(rng, S, maxorder=1, pstream=0.5, den_p=0.0))]
+    f1, f2 = rng.randrange(1, 5), rng.randrange(1, 5)
+    steps = [["look"], ["call", f1], ["look"], ["call", f2]]
+    if rng.random() < 0.4:
+      steps += [["call", rng.randrange(1, 4)]]
+    steps += [["look"]]
+    yield {"expr": e, "srcs": S.list, "zero": fr(0 if rng.random() < 0.7 else Fraction(1, 2)), "steps": steps,
+           "tags": ["blocks"]}
+  # the same with a Stream as gain (the repaired finding C06-gain-call-deletes-a0: the object keeps its a0)
+  for _ in range(12 * reps):
+    S = long_srcs(rng, 12)
+    e = base_filter(rng, S, [0, 1], [0, 1], [rng.random() < 0.5, rng.random() < 0.5, True, rng.random() < 0.5])
+    steps = [["look"], ["call", rng.randrange(1, 4)], ["look"], rng.choice([["call", 2], ["shift", 1, 2], ["call", 3]]), ["look"]]
+    yield {"expr": e, "srcs": S.list, "zero": fr(0), "steps": steps, "tags": ["blocks-stream-gain"]}
+
+
+def nontrivial_ses(c, o):
+  return o.get("stage") == "steps" and sum(1 for x in o["obs"] if "trace" in x and len(x["trace"]) > 3) >= 1
+
+
 def known_tv(c, o):
   """FINDING C06-zero-filter-gain-unread: ZFilter({}, {0: Stream}) - empty numerator, a Stream gain as the only
   denominator term: the variable-gain branch multiplies two EMPTY Polys by the gain stream, the stream is dropped,
@@ -493,4 +682,5 @@ IMPORTS = "From AL Require Import C04.Model C06.Model C06.Spec C06.Check."
 FAMILIES = {
   "shape": Family("shape", IMPORTS, "tcase", "corr_tv", "holds_tv", gen_shape, run_tv, lit_tv, nontrivial_shape, known_tv),
   "alg": Family("alg", IMPORTS, "tcase", "corr_tv", "holds_tv", gen_alg, run_tv, lit_tv, nontrivial_alg, known_tv),
+  "ses": Family("ses", IMPORTS, "scase", "corr_ses", "holds_ses", gen_ses, run_ses, lit_ses, nontrivial_ses),
 }
